@@ -58,3 +58,12 @@ pub const PROP_KEYS: &[&str] = &[
 ];
 
 pub const FIELD_NAMES: &[&str] = &["x", "y", "name", "age", "range", "inner", "value", "f0", "s", "r#type"];
+
+/// realistic names for C07 layer 2 (in addition to IDENTS)
+pub const C07_DICT: &[&str] = &[
+    "HttpStatusCode", "URLParser", "parseURL", "JSONValue", "Utf16LE", "OAuth2Token", "MD5Hash", "CPUInfo", "Ipv4Net",
+    "X509Certificate", "getHTTPResponseCode", "HTTP2Stream", "AWSS3Bucket", "IoT", "ASCII", "Rgb888", "Bgra8888Srgb",
+    "PDFDocument", "EOFError", "NaN", "Id", "ID", "Uuid4", "TLSv13", "SQLiteDb", "McDonald", "iPhone", "eBay",
+    "A", "AB", "ABc", "AbCd", "aBC", "Ab1", "A1", "A1b", "A1B2c3", "Version2Point0", "two_words", "Three_Word_Name",
+    "SHOUT", "SHOUT_CASE", "mixed_Case_Name", "__dunder__", "trailing__", "a1", "a_b_c", "AbcDEFGhi", "ÉcoleÉlève",
+];
